@@ -168,7 +168,9 @@ def add_edges(spec, rnd, uniform):
         # weights of one bundle: mixed magnitudes, or all of one (very small) magnitude as in SI-unit models
         wkind = rnd.choice([None, None, None, None, None, 'nano', 'tiny']) if len(T) < 10 else rnd.choice([None, None, 'nano', 'tiny'])
         for a, b in pairs:
-            edges.append([f'{a}/{so}/{sv}', f'{b}/{to}/{tv}', None, {'weight': gen.gen_weight(rnd, vals, wkind)}])
+            w_ = gen.gen_weight(rnd, vals, wkind)
+            # (an edge of weight exactly 1.0 is sometimes declared without a weight attribute - the documented default)
+            edges.append([f'{a}/{so}/{sv}', f'{b}/{to}/{tv}', None, {} if w_ == 1.0 and rnd.random() < 0.5 else {'weight': w_}])
     spec['circ']['edges'] = spec['circ'].get('edges', []) + edges
     return spec
 
